@@ -453,7 +453,9 @@ def o_interp_result(op, np_, bary, logs, m_out, log_out, out, tag=None, xyz=None
         c = [unhx(t) for t in tag.split(',')[1:]]
         want = [c[k] + c[6 + k] * xyz[0] + c[12 + k] * xyz[1] + c[18 + k] * xyz[2] for k in range(6)]
         mag = max(1.0, max(abs(c[k]) + abs(c[6 + k] * xyz[0]) + abs(c[12 + k] * xyz[1]) + abs(c[18 + k] * xyz[2]) for k in range(6)))
-        if max(abs(a - b) for a, b in zip(want, log_out)) > 1e-9 * mag:
+        # the donors' stored logs come from log_m of the metrics on the op line: their error is cond * eps
+        spread = max(max(sm_eigs(l)) - min(sm_eigs(l)) for l in logs[:np_])
+        if max(abs(a - b) for a, b in zip(want, log_out)) > (1e-9 + 1e-14 * math.exp(spread)) * mag:
             out.append('%s: log-linear field not reproduced at %s: log %s, exact %s' % (op, xyz, log_out, want))
 
 
@@ -824,8 +826,21 @@ def gen_eig(rng, tier):
 def gen_gac(rng, tier):
     n = 14 if tier == 'quick' else 80
     ops = []
-    for _ in range(n):
-        if rng.random() < 0.5:
+    for it in range(n):
+        strip = it % 3 == 0
+        if strip:
+            # a long strip with a fine region at one end and a small gradation: the limit travels one edge per sweep,
+            # so 20 sweeps do not converge and only the final rescale puts the complexity on target
+            nx = rng.randint(24, 34)
+            if rng.random() < 0.6:
+                xyz, cells = lattice2(random.Random(rng.random()), nx, 1, [1.0, 1.0 / nx], 0, [0.0, 0.0])
+                cells = [('qua', [2 * i, 2 * i + 2, 2 * i + 3, 2 * i + 1]) for i in range(nx)]
+                twod = True
+            else:
+                xyz, cells = lattice3(random.Random(rng.random()), nx, 1, 1, [1.0, 1.0 / nx, 1.0 / nx], 0, [0.0] * 3)
+                cells = [c for c in cells if c[0] == 'hex'] or cells
+                twod = False
+        elif rng.random() < 0.5:
             xyz, cells = lattice2(rng, rng.randint(1, 3), rng.randint(1, 3), [1.0, 1.0], rng.choice([0, 1.0]), [0.0, 0.0])
             twod = True
         else:
@@ -836,6 +851,9 @@ def gen_gac(rng, tier):
         f = []
         for _p in xyz:
             l = [lmax * 10 ** rng.uniform(-2, 0) for _ in range(3)]
+            if strip:
+                big = 1e4 if _p[0] < 0.08 else 1.0
+                l = [big * rng.uniform(1.0, 1.5) for _ in range(3)]
             if twod:
                 a = rng.uniform(-3, 3)
                 c, s = math.cos(a), math.sin(a)
@@ -844,6 +862,8 @@ def gen_gac(rng, tier):
                 f.append(tuple(sm.build(sm.rot_quat(rng), l)))
         mesh.metric = f
         g = rng.choice([-1.0, 1.2, 1.5, 3.0, 1.5])
+        if strip:
+            g = rng.choice([1.05, 1.1, 1.2])
         t = rng.choice([50.0, 500.0, 2000.0, 1e5, rng.uniform(50, 1e5)])
         ops.append(op_line('gac', [hx(g), hx(t)], mesh))
     return ops
@@ -911,16 +931,16 @@ def exp_of(L):
 
 def gen_interp_grid(rng, tier):
     """real ref_metric_interpolate_node / _between on valid bricks whose background is cached as `ref adapt` does"""
-    n = 50 if tier == 'quick' else 300
+    n = 200 if tier == 'quick' else 800
     ops = []
     for _ in range(n):
         twod = rng.random() < 0.4
         if twod:
-            v, t, _e = meshgen.square_tris(rng.randint(1, 3), rng.randint(1, 3), rng, rng.choice([0.0, 0.2]))
+            v, t, _e = meshgen.square_tris(rng.randint(1, 3), rng.randint(1, 3), rng, rng.choice([0.0, 0.2, 0.13, 0.07]))
             xyz = [tuple(p) + (0.0,) * (3 - len(p)) for p in v]
             cells = [('tri', list(c[:3])) for c in t]
         else:
-            v, t, _s = meshgen.box_tets(rng.randint(1, 2), rng.randint(1, 2), rng.randint(1, 2), rng, rng.choice([0.0, 0.2]))
+            v, t, _s = meshgen.box_tets(rng.randint(1, 2), rng.randint(1, 2), rng.randint(1, 2), rng, rng.choice([0.0, 0.2, 0.13, 0.07]))
             xyz = [tuple(p) for p in v]
             cells = [('tet', list(c[:4])) for c in t]
         mesh = Mesh(twod, xyz, None, [True] * len(xyz), cells)
@@ -932,7 +952,7 @@ def gen_interp_grid(rng, tier):
                 m = (m[0], m[1], 0.0, m[3], 0.0, 1.0)
             mesh.metric = [m] * len(xyz)
         elif k < 0.65:
-            L0 = log_field(rng)
+            L0 = sm.build(sm.rotation(rng), [rng.uniform(-2, 5) for _ in range(3)])
             G = [[rng.uniform(-2, 2) for _ in range(6)] for _ in range(3)]
             if twod:
                 L0 = [L0[0], L0[1], 0.0, L0[3], 0.0, 0.0]
@@ -943,20 +963,28 @@ def gen_interp_grid(rng, tier):
         else:
             kind = 'g'
             mesh.metric = [spd_metric(rng, twod) for _ in xyz]
-        # a point strictly inside a random cell (convex combination with weights >= 0.05)
+        # a point strictly inside a random cell (convex combination with weights >= 0.05), or -- "out" -- pushed
+        # through a boundary of the unit brick so that the best donor has negative barycentric weights (clipped)
         kc, ns = rng.choice(cells)
         wts = [0.05 + rng.random() for _ in ns]
         s = sum(wts)
         p = [sum(w / s * xyz[i][c] for w, i in zip(wts, ns)) for c in range(3)]
+        where = 'in'
+        if rng.random() < 0.2:
+            where = 'ou'
+            c = rng.randrange(2 if twod else 3)
+            p[c] = rng.choice([-1.0, 1.0]) * rng.choice([0.002, 0.01, 0.03]) + (1.0 if rng.random() < 0.5 else 0.0)
         if twod:
             p[2] = 0.0
-        if rng.random() < 0.6:
+        if rng.random() < 0.5:
             node = rng.randrange(len(xyz))
-            ops.append(' '.join(['interp_move', 'in' + kind, str(node)] + [hx(x) for x in p] + mesh.words()))
+            ops.append(' '.join(['interp_move', where + kind, str(node)] + [hx(x) for x in p] + mesh.words()))
         else:
             a, b = ns[0], ns[1]
-            tt = rng.choice([0.5, rng.uniform(0.05, 0.95)])
-            ops.append(' '.join(['interp_between', 'in' + kind, str(a), str(b), hx(tt)] + mesh.words()))
+            tt = rng.choice([0.5, rng.uniform(0.05, 0.95), rng.uniform(0.05, 0.95)])
+            if where == 'ou':
+                tt = rng.choice([1.0 + rng.uniform(0.01, 0.3), -rng.uniform(0.01, 0.3)])   # beyond an end of the edge
+            ops.append(' '.join(['interp_between', where + kind, str(a), str(b), hx(tt)] + mesh.words()))
     return ops
 
 
